@@ -1724,6 +1724,14 @@ impl Writer {
   // }
 }
 
+// Verification hook: read-only view of the matched set.
+#[cfg(rustdds_verif)]
+impl Writer {
+  pub(crate) fn verif_matched_readers(&self) -> Vec<GUID> {
+    self.readers.keys().copied().collect()
+  }
+}
+
 impl RTPSEntity for Writer {
   fn guid(&self) -> GUID {
     self.my_guid
